@@ -746,7 +746,12 @@ class UniformTime(np.ndarray, TimeInterface):
         # Make sure that t0 attribute is set properly:
         for attr in ['t0', 'sampling_rate', 'sampling_interval', 'duration']:
             if not hasattr(self, attr) and hasattr(obj, attr):
-                setattr(self, attr, getattr(obj, attr))
+                val = getattr(obj, attr)
+                # Views and copies get their own attribute objects, so that
+                # an in-place operation on one axis cannot change another:
+                if isinstance(val, np.ndarray):
+                    val = val.copy()
+                setattr(self, attr, val)
 
     def __repr__(self):
         """Pass it through the conversion factor"""
